@@ -296,9 +296,10 @@ class Tie:
 
 
 TRUSTED = [
-    "modelled: src/sdcard/mod.rs (SdCardInner, Delay) and the CSD accessors/capacity formulas of proto.rs, transcribed into a state/bus monad over N; dev-profile overflow = Panic; the unused `_attempts: i32` counter of acquire's CMD0 loop is not modelled (identical while acquire_retries < 2^31 - 1)",
-    "the SPI device and delayer are one function parameter; MISO bytes are masked to 8 bits at the bus boundary; a reply shorter than the request leaves the rest of the buffer unchanged (embedded-hal contract: equal lengths)",
-    "LEGALCARD (SdSpec.v) and `accept` are our reading of the SD Physical Layer Simplified Specification, SPI mode (chapter 7) and CSD (5.3); the Rust card simulator in harness/src/bin/sdrun.rs is checked against the extracted LEGALCARD on every legal run",
+    "modelled: src/sdcard/mod.rs (SdCard API, SdCardInner, Delay) and the CSD accessors/capacity formulas of proto.rs, transcribed function by function into a state/bus monad over N (bytes as N < 256); arithmetic that panics under the dev profile = Panic (none left reachable: C13_bounded); the unused `_attempts: i32` counter of acquire's CMD0 loop is not modelled (identical while acquire_retries < 2^31 - 1); buffers of a failed read are not modelled (only results)",
+    "the SPI device and the delayer are one function parameter `spi`; MISO bytes are masked to 8 bits at the bus boundary; a reply shorter than the request leaves the rest of the buffer unchanged (embedded-hal contract: equal lengths); a `Fail` reply to a delay has no meaning",
+    "LEGALCARD and `accept` (SdSpec.v) are our reading of the SD Physical Layer Simplified Specification, SPI mode (chapter 7: commands, R1/R1b/R2/R3/R7, tokens, CRC) and CSD (5.3); timing minima N_WR >= 1 / N_BR are not modelled (the card accepts a data token right after R1); the Rust card simulator in harness/src/bin/sdrun.rs is checked against the extracted LEGALCARD on every legal run (MISO byte for byte)",
+    "C12/C14_legal hypotheses: legal_timing (every card delay within the driver's budget at that point: N_CR <= 8, N_AC <= 10000, busy after a data block <= 50000, busy after CMD12 / stop token <= 10000 polled bytes, ACMD41 idle answers <= 10000), addressable (every block has a 32-bit address), a 16-byte CSD with CSD_STRUCTURE 0 or 1, 512-byte blocks of bytes in card memory",
 ]
 
 # ---- scenario generators ---------------------------------------------------------
